@@ -775,6 +775,9 @@ func TestVerifC17Upstream(t *testing.T) {
 		vrt.Part(r, "e2e", func(emit func(c17E2ECase)) { c17GenE2ECases(r, emit) },
 			func(c c17E2ECase) []vrt.Finding { return c17RunE2ECase(r, c) })
 	})
+	// Real loopback sockets and real time: outside the bubble.
+	r.Bound("init_cases", "fallbacks {0,1} x mains {1,2} x {ok, SERVFAIL, silent}^mains during NewHandler's initial health check, then queries, round, queries, round, queries")
+	vrt.Part(r, "init", c17GenInitCases, func(c c17InitCase) []vrt.Finding { return c17RunInitCase(r, c) })
 	r.Finish()
 	os.Exit(0)
 }
